@@ -59,10 +59,12 @@ def cases(tier, seed):
         pats = [[k for k in order if popcount(k) == g] for g in range(1, d + 1)]
         pats += [p for p in pat.RND(d, 6 if tier == 'quick' else 40, rng, max_len=4, min_len=1) if 0 not in p]
         pats += [[k for k in order if popcount(k) in (1, 2)]] if d <= 3 else []
+        if d == 4:
+            pats += [[3, 7], [3, 12, 7], [5, 10, 14, 11], [3, 12, 7, 1], [6, 9, 13, 15]]
         for ka in pats:
             if not ka:
                 continue
-            out.append(dict(kind='outer', cfg=cfg, ka=list(ka), tan=(d <= 3 or len(ka) <= 3)))
+            out.append(dict(kind='outer', cfg=cfg, ka=list(ka), tan=(d <= 3 or len(ka) <= 4)))
         # sqrt on Study numbers
         for k in (rng.sample(nosc, min(len(nosc), 4)) if nosc else []):
             out.append(dict(kind='sqrt', cfg=cfg, ka=[0, k]))
@@ -79,6 +81,9 @@ def cases(tier, seed):
             out.append(dict(kind='exp', cfg=cfg, ka=[k], fork=True))
             if rng.random() < 0.5:
                 out.append(dict(kind='exp-sympy', cfg=cfg, ka=[k]))
+        for k in (rng.sample(nosc, min(3, len(nosc))) if nosc else []):
+            out.append(dict(kind='exp-sympy-assumptions', cfg=cfg, ka=[k]))
+            out.append(dict(kind='exp-numpy-scalars', cfg=cfg, ka=[k]))
         for _ in range(2 if tier == 'quick' else 12):
             if len(nosc) >= 2:
                 out.append(dict(kind='exp', cfg=cfg, ka=rng.sample(nosc, 2), fork=True))
@@ -104,6 +109,8 @@ def run_case(desc, V):
     kind = desc['kind']
     if kind in ('exp', 'exp-sympy'):
         return _run_exp(desc, V)
+    if kind in ('exp-sympy-assumptions', 'exp-numpy-scalars'):
+        return _run_exp_concrete(desc, V)
     alg = get_alg(desc['cfg'])
     km = kmap(alg)
     x = mv(alg, V, 'x', desc['ka'])
@@ -195,6 +202,64 @@ def run_case(desc, V):
         claims += mv_eq_claims('normalized*norm=x', u * n, X)
         return claims
     raise ValueError(kind)
+
+
+def _run_exp_concrete(desc, V):
+    """exp against cosh/sinh/1/cos/sin closed forms on CONCRETE values (sampling, stated as such): sympy coefficients whose
+    sign sympy can decide (positive symbols, exact numbers) and numpy scalar types that are not Python floats."""
+    import cmath, math, sympy
+    alg = get_alg(desc['cfg'])
+    km = kmap(alg)
+    k = desc['ka'][0]
+    sq = km.from_ref(km.ref.gp(km.to_ref({k: 1}), km.to_ref({k: 1}))).get(0, 0)        # square of the unit blade: +1, 0, -1
+    claims = [Note('nontrivial', '')]
+
+    def near(label, got, want, fkey):
+        # concrete floating-point comparison (these sub-checks are sampling on concrete values, not solver claims)
+        from ..core import concrete_equal
+        if concrete_equal(got, want, tol=1e-7):
+            return Eq(label, 1, 1)
+        return Fail(label, f'{label}: got {got!r}, closed form {want!r}', fkey)
+
+    def closed(t):
+        ll = sq * t * t
+        if ll > 0:
+            l = math.sqrt(ll); return math.cosh(l), math.sinh(l) / l * t
+        if ll == 0:
+            return 1.0, t
+        l = math.sqrt(-ll); return math.cos(l), math.sin(l) / l * t
+    if desc['kind'] == 'exp-sympy-assumptions':
+        for tag, coef, val in (('positive-symbol', sympy.Symbol('t', positive=True), 0.7), ('rational', sympy.Rational(3, 4), None), ('integer', sympy.Integer(2), None),
+                               ('negative-symbol', sympy.Symbol('t', negative=True), -0.6), ('plain-symbol', sympy.Symbol('t'), 0.5)):
+            x = alg.multivector(keys=(k,), values=[coef])
+            r = x.exp()
+            tval = float(coef) if val is None else val
+            c0, c1 = closed(tval)
+            got = coeffs(r)
+            def num(e):
+                e = sympy.sympify(e)
+                e = e.subs({s_: tval for s_ in e.free_symbols})
+                z = complex(sympy.N(e))
+                return z.real if abs(z.imag) < 1e-9 else z
+            claims.append(near(f'exp-{tag}[0]', num(got.get(0, 0)), c0, f'exp|sympy-assumptions|{tag}'))
+            claims.append(near(f'exp-{tag}[{k}]', num(got.get(k, 0)), c1, f'exp|sympy-assumptions|{tag}'))
+            for kk, v in got.items():
+                if kk not in (0, k):
+                    claims.append(near(f'exp-{tag}-other[{kk}]', num(v), 0.0, f'exp|sympy-assumptions|{tag}'))
+        return claims
+    for tag, mk in (('float64', np.float64), ('float32', np.float32), ('int64', np.int64), ('int', int), ('fraction', Fraction)):
+        tval = 2 if tag in ('int64', 'int') else 0.5
+        x = alg.multivector(keys=(k,), values=[mk(tval) if tag != 'fraction' else Fraction(1, 2)])
+        try:
+            r = x.exp()
+        except Exception as e:  # noqa
+            claims.append(Fail(f'exp-{tag}:raises', f'exp() with {tag} coefficients raised {type(e).__name__}: {e}', fkey=f'exp|numpy-scalar|{tag}|raises'))
+            continue
+        c0, c1 = closed(float(tval))
+        got = coeffs(r)
+        claims.append(near(f'exp-{tag}[0]', complex(got.get(0, 0)), c0, f'exp|numpy-scalar|{tag}'))
+        claims.append(near(f'exp-{tag}[{k}]', complex(got.get(k, 0)), c1, f'exp|numpy-scalar|{tag}'))
+    return claims
 
 
 # --------------------------------------------------------------------------- exp skeleton
